@@ -22,6 +22,15 @@
 //! * wake rule: when a blocked inner future is released, every entry point of
 //!   that half whose last poll returned `Pending` is woken.
 //!
+//! What fires on the tree this was written against (kept, reported):
+//! `C12/write-accepted-during-inflight-flush-never-flushed/async` (a
+//! `poll_write` accepted while `inner.flush()` of an earlier flush future is
+//! pending is never covered by that future: `poll_flush`/`poll_close` report
+//! success, bytes are lost at close, debug assertion in `poll_close`),
+//! `C12/limit-exceeded/sync/read-buffer` (`fill_read_buf` checks the limit
+//! before the read but lends out more room than is left), and under Miri the
+//! aliasing of `&mut` between an in-flight boxed future and the next poll.
+//!
 //! One program text is driven exhaustively (odometer over all choice
 //! sequences, iterative deepening over the number of calls so that the first
 //! violation of a class is a shortest one) and by seeded random choices with
@@ -196,12 +205,7 @@ enum Atom {
     Done,
 }
 
-// classes of inner behaviour observed (bit numbers), part of the eval signature
-const CLASS_NAMES: [&str; 20] = [
-    "give-all", "give-short", "eof", "eof-early", "rpend", "rerr", "accept-all", "accept-short", "accept-0", "wpend",
-    "werr", "flush-ok", "flush-pend", "flush-err", "shut-ok", "shut-pend", "shut-err", "data-after-eof",
-    "broken-pipe", "zero-cap-read",
-];
+// classes of inner behaviour observed (bit numbers); condensed into the eval signature
 const C_GIVE_ALL: u32 = 0;
 const C_GIVE_SHORT: u32 = 1;
 const C_EOF: u32 = 2;
@@ -613,13 +617,15 @@ fn fail<T>(rule: &str, ad: &str, at: &str, what: String) -> Result<T, Fail> {
 
 enum Outcome {
     Skip,
-    Done { sig: String, trivial: bool },
+    Done { sig: String, trivial: bool, flags: u32 },
     Fail(Fail),
 }
 
 // ---------------------------------------------------------------------------
 // The program
 // ---------------------------------------------------------------------------
+
+const INFLIGHT: &str = "write-accepted-during-inflight-flush-never-flushed";
 
 const ENTRY: [&str; 6] = ["poll_read", "poll_read_uninit", "poll_fill_buf", "poll_write", "poll_flush", "poll_close"];
 
@@ -707,6 +713,9 @@ struct Run<'a> {
     limit_hit: bool,
     saw_wb: bool,
     saw_pending: bool,
+    /// A refill happened with an unread remainder behind a consumed prefix.
+    compaction: bool,
+    consumed_since_fill: bool,
     stale_wakers: usize,
 }
 
@@ -792,6 +801,9 @@ impl<'a> Run<'a> {
         }
         drop(st);
         self.handed += d.len();
+        if !d.is_empty() {
+            self.consumed_since_fill = true;
+        }
         Ok(())
     }
 
@@ -955,16 +967,31 @@ impl<'a> Run<'a> {
     }
 
     fn cond(&self) -> &'static str {
-        if self.wrote_inflight { "write-accepted-during-inflight-flush" } else { "plain" }
+        if self.wrote_inflight { INFLIGHT } else { "plain" }
+    }
+
+    /// A write-side completeness failure. All symptoms of one situation —
+    /// `poll_write` accepted bytes while an earlier flush future was still in
+    /// flight — share one class: which symptom shows first (flush reports
+    /// success early, shutdown with bytes buffered, bytes lost at close,
+    /// debug assertion in `poll_close`) only depends on the calls that follow.
+    fn wfail<T>(&self, rule: &str, at: &str, what: String) -> Result<T, Fail> {
+        if self.wrote_inflight {
+            Err(Fail {
+                sig: format!("C12/{INFLIGHT}/{}", self.ad_name),
+                what: format!("[{rule} at {at}] {what}; an earlier poll_write was accepted while a flush future was in flight"),
+            })
+        } else {
+            fail(rule, self.ad_name, at, what)
+        }
     }
 
     fn check_flushed(&mut self, at: &str) -> Result<(), Fail> {
         let pend = self.pending_w();
         if pend > 0 {
-            return fail(
+            return self.wfail(
                 "flush-incomplete",
-                self.ad_name,
-                &format!("{at}/{}", self.cond()),
+                at,
                 format!("{at} reported success but {pend} accepted bytes have not reached the inner stream"),
             );
         }
@@ -1010,10 +1037,9 @@ impl<'a> Run<'a> {
         if shut && !self.seen_shut {
             self.seen_shut = true;
             if pend > 0 {
-                return fail(
+                return self.wfail(
                     "shutdown-before-flush",
-                    self.ad_name,
-                    &format!("{at}/{}", self.cond()),
+                    at,
                     format!("the inner stream was shut down while {pend} accepted bytes were still buffered"),
                 );
             }
@@ -1144,6 +1170,7 @@ impl<'a> Run<'a> {
                     let Adapter::Sync(Some(s)) = &mut self.ad else { unreachable!() };
                     s.consume(j);
                     self.handed += j;
+                    self.consumed_since_fill |= j > 0;
                     self.log(|| format!("consume({j})"));
                 }
                 Ok("fill_buf")
@@ -1156,6 +1183,10 @@ impl<'a> Run<'a> {
                     st.clear_call();
                     (st.produced.len(), st.read_calls)
                 };
+                if avail > 0 && self.consumed_since_fill {
+                    self.compaction = true;
+                }
+                self.consumed_since_fill = false;
                 let st = self.st.clone();
                 let Adapter::Sync(Some(s)) = &mut self.ad else { unreachable!() };
                 let r = drive(&st, s.fill_read_buf(), R, "fill_read_buf")?;
@@ -1358,6 +1389,14 @@ impl<'a> Run<'a> {
                 let en = &mut self.entries[e];
                 en.pending = true;
                 en.count_at = en.cw.count();
+                if half == R && (a > 0 || eof0) && (k > 0 || e == 2) {
+                    return fail(
+                        "spurious-pending",
+                        "async",
+                        at,
+                        format!("{at} returned Pending with {a} bytes buffered, eof={eof0}: progress was possible"),
+                    );
+                }
                 if !self.st.borrow().blocked[half] {
                     return fail(
                         "pending-without-blocked-inner",
@@ -1506,19 +1545,17 @@ impl<'a> Run<'a> {
                     }
                 }
                 if !ok {
-                    return fail(
+                    return self.wfail(
                         "retry-stuck",
-                        "async",
-                        &format!("poll_flush/{}", self.cond()),
+                        "poll_flush",
                         format!("retried poll_flush against a benign inner stream left {} bytes unsent", self.pending_w()),
                     );
                 }
             }
             if wr && self.pending_w() > 0 {
-                return fail(
+                return self.wfail(
                     "lost-bytes",
-                    "async",
-                    &format!("poll_close/{}", self.cond()),
+                    "poll_close",
                     format!("{} accepted bytes never reached the inner stream, which is shut down", self.pending_w()),
                 );
             }
@@ -1546,33 +1583,59 @@ impl<'a> Run<'a> {
         Ok(())
     }
 
-    fn signature(&self) -> (String, bool) {
+    /// (coverage signature, trivial?, floor flags)
+    fn signature(&self) -> (String, bool, u32) {
         let st = self.st.borrow();
-        let names = |mask: u32, tab: &[&str]| -> String {
-            let mut s = String::new();
-            for (i, n) in tab.iter().enumerate() {
-                if mask >> i & 1 == 1 {
-                    if !s.is_empty() {
-                        s.push(',');
-                    }
-                    s.push_str(n);
+        let c = |bit: u32| st.classes >> bit & 1 == 1;
+        // inner script class: what the inner stream did beyond the benign default
+        let mut inner = String::new();
+        let mut add = |on: bool, name: &str| {
+            if on {
+                if !inner.is_empty() {
+                    inner.push(',');
                 }
+                inner.push_str(name);
             }
-            s
         };
-        // the benign defaults are left out of the signature: they are (nearly) always there
-        let nonbenign = st.classes & !(1 << C_GIVE_ALL | 1 << C_EOF | 1 << C_ACC_ALL | 1 << C_FLUSH | 1 << C_SHUT);
+        add(c(C_GIVE_SHORT), "r-short");
+        add(c(C_RPEND), "r-pend");
+        add(c(C_RERR), "r-err");
+        add(c(C_EOF_EARLY), "r-eof-early");
+        add(c(C_ACC_SHORT) || c(C_ACC_ZERO), "w-partial");
+        add(c(C_WPEND), "w-pend");
+        add(c(C_WERR), "w-err");
+        add(c(C_FLUSH + 1) || c(C_SHUT + 1), "ctl-pend");
+        add(c(C_FLUSH + 2) || c(C_SHUT + 2), "ctl-err");
+        add(c(C_AFTER_EOF) || c(C_BROKEN_PIPE) || c(C_ZERO_CAP), "odd");
+        let mut calls = String::new();
+        for (i, n) in OP_NAMES.iter().enumerate() {
+            if self.ops >> i & 1 == 1 {
+                if !calls.is_empty() {
+                    calls.push(',');
+                }
+                calls.push_str(n);
+            }
+        }
         let sig = format!(
-            "{}-{}|calls={}|inner={}|limit={}|eof={}",
+            "{}-{}|calls={calls}|inner={inner}|limit={}",
             self.ad_name,
             ["r", "w", "rw"][self.dir],
-            names(self.ops, &OP_NAMES),
-            names(nonbenign, &CLASS_NAMES),
-            self.limit_hit as u8,
-            self.reported_eof as u8,
+            self.limit_hit as u8
         );
-        // trivial: the inner stream never did anything but the benign default
-        (sig, nonbenign == 0 && !self.limit_hit)
+        let any_pend = c(C_RPEND) || c(C_WPEND) || c(C_FLUSH + 1) || c(C_SHUT + 1);
+        let failed_flush = c(C_WERR) || c(C_ACC_ZERO);
+        let flags = (self.limit_hit as u32)
+            | (any_pend as u32) << 1
+            | (failed_flush as u32) << 2
+            | (self.reported_eof as u32) << 3
+            | (self.saw_wb as u32) << 4
+            | (self.compaction as u32) << 5
+            | ((self.stale_wakers > 0) as u32) << 6
+            | (self.saw_pending as u32) << 7;
+        // non-trivial (DESIGN appendix B): at least one WouldBlock / Pending, partial or failed
+        // flush, compaction, limit, or any other non-benign inner behaviour
+        let nontrivial = !inner.is_empty() || self.limit_hit || self.saw_wb || self.saw_pending || self.compaction;
+        (sig, !nontrivial, flags)
     }
 }
 
@@ -1628,7 +1691,7 @@ fn run_program(p: &Params, log: Option<Rc<RefCell<Vec<String>>>>, own: &dyn Fn(&
     };
     let ad_name = if ad_kind == 0 { "sync" } else { "async" };
     {
-        let mut s = st.borrow_mut();
+        let s = st.borrow();
         lg!(
             s,
             "{}::with_limits(base_capacity {base}, max_buffer_size {max}), {} side, inner payload {payload}",
@@ -1657,6 +1720,8 @@ fn run_program(p: &Params, log: Option<Rc<RefCell<Vec<String>>>>, own: &dyn Fn(&
         limit_hit: false,
         saw_wb: false,
         saw_pending: false,
+        compaction: false,
+        consumed_since_fill: false,
         stale_wakers: 0,
     };
     let own_at = p.own_after.min(p.max_ops);
@@ -1678,7 +1743,7 @@ fn run_program(p: &Params, log: Option<Rc<RefCell<Vec<String>>>>, own: &dyn Fn(&
     if result.is_ok() {
         result = run.finish();
     }
-    let (sig, trivial) = run.signature();
+    let (sig, trivial, flags) = run.signature();
     let leftover = {
         // wakers must be given back once adapter and inner stream are gone
         let entries = std::mem::take(&mut run.entries);
@@ -1690,7 +1755,7 @@ fn run_program(p: &Params, log: Option<Rc<RefCell<Vec<String>>>>, own: &dyn Fn(&
     };
     LEFTOVER.with(|l| l.set(l.get().max(leftover)));
     match result {
-        Ok(()) => Outcome::Done { sig, trivial },
+        Ok(()) => Outcome::Done { sig, trivial, flags },
         Err(f) => Outcome::Fail(f),
     }
 }
@@ -1727,15 +1792,14 @@ fn execute(p: &Params, rep: &mut Report, own: &dyn Fn(&[usize]) -> bool) {
     let choices = ch_trace();
     match r {
         Ok(Outcome::Skip) => {}
-        Ok(Outcome::Done { sig, trivial }) => {
+        Ok(Outcome::Done { sig, trivial, flags }) => {
             if rep.want_sample() && !trivial && choices.len() >= 8 {
                 let steps = explain(p, &choices);
                 rep.sample(replay_value(p, &choices, &steps));
             }
-            rep.floor("limit-reached", sig.contains("limit=1"));
-            rep.floor("pending-then-released", sig.contains("release"));
-            rep.floor("failed-flush-then-retry", sig.contains("werr") || sig.contains("accept-0"));
-            rep.floor("eof-reported", sig.contains("eof=1"));
+            for (i, name) in FLOORS.iter().enumerate() {
+                rep.floor(name, flags >> i & 1 == 1);
+            }
             rep.eval(if trivial { None } else { Some(sig) });
         }
         Ok(Outcome::Fail(f)) if f.sig == "inconclusive" => {
@@ -1754,9 +1818,14 @@ fn execute(p: &Params, rep: &mut Report, own: &dyn Fn(&[usize]) -> bool) {
             steps.push(format!("{at}(..) panics"));
             match pi.origin() {
                 panics::Origin::Repo(_) => {
+                    let sig = if cond == INFLIGHT {
+                        format!("C12/{INFLIGHT}/{ad}")
+                    } else {
+                        format!("C12/{}/{ad}/{at}", pi.sig())
+                    };
                     rep.violation(
-                        &format!("C12/{}/{ad}/{at}/{cond}", pi.sig()),
-                        &format!("panic in compio during {at} at {}:{}: {}", pi.file, pi.line, pi.message),
+                        &sig,
+                        &format!("panic in compio during {at} at {}:{}: {} (condition: {cond})", pi.file, pi.line, pi.message),
                         replay_value(p, &choices, &steps),
                     )
                 }
@@ -1765,6 +1834,17 @@ fn execute(p: &Params, rep: &mut Report, own: &dyn Fn(&[usize]) -> bool) {
         }
     }
 }
+
+const FLOORS: [&str; 8] = [
+    "limit-reached",
+    "inner-pending-then-released",
+    "failed-or-zero-flush-then-retry",
+    "eof-reported",
+    "sync-wouldblock-seen",
+    "read-buffer-compaction",
+    "waker-replaced-while-pending",
+    "poll-pending-seen",
+];
 
 fn usize_list(args: &Args, k: &str, d: &[usize]) -> Vec<usize> {
     match args.get(k) {
